@@ -5,3 +5,11 @@ set -e
 cd "$(dirname "$0")"
 mkdir -p build evidence
 ./check --build-all
+# Self-validation of the oracles (harness bugs must fail here, never as a cctz VIOLATION):
+#  refcal vs glibc gmtime_r/timegm, zonemodel vs Python zoneinfo and glibc localtime_r (two-of-three)
+mkdir -p build/tools build/work/selfcheck
+g++ -std=gnu++17 -O2 -Iharness harness/modelcheck.cc -o build/tools/modelcheck
+python3 tools/gen_zic.py --seed 11 --count 120 --out "$PWD/build/work/selfcheck/zic" > build/work/selfcheck/gen.log 2>&1 || true
+./build/tools/modelcheck "$PWD/build/work/selfcheck/zic" "$PWD/build/work/selfcheck/dump.txt"
+python3 tools/validate_model.py build/work/selfcheck/dump.txt
+rm -rf build/work/selfcheck
